@@ -109,7 +109,7 @@ def expected_horizons(seed):
     exp = {}
     for sid, hz, _ in soils(seed):
         exp[sid] = [((tex + "   ")[:3], ld, c, st / 100, dep, float(fc), float(wp), float(pv)) for (c, tex, dep, ld, st, fc, wp, pv, sa, si, cl) in hz]
-    for sid, gwl, hz in file_soils(seed):
+    for sid, gwl, hz in file_soils(seed) + sweep_soils(seed):
         exp[sid] = [((tex + "   ")[:3], ld, c, st / 100, dep, float(fc or 0), float(wp or 0), float(pv or 0)) for (c, tex, dep, ld, st, fc, wp, pv, sa, si, cl) in hz]
     return exp
 
@@ -213,8 +213,100 @@ def make_projects(ex, seed, thorough=False):
             open(os.path.join(dst, "soil_%s.csv" % name), "w").write("\n".join([HDR] + soil_lines_csv(fs)) + "\n")
         else:
             open(os.path.join(dst, "soil_%s.txt" % name), "w").write(soil_file_txt(fs))
+    # configuration sweep: one project, both soil files, all three groundwater sources selectable from the batch line
+    dst = os.path.join(ex, "project", "c15w")
+    shutil.rmtree(dst, ignore_errors=True)
+    shutil.copytree(os.path.join(ex, "project", "c15g"), dst)
+    for fn in os.listdir(dst):
+        if "c15g" in fn:
+            os.rename(os.path.join(dst, fn), os.path.join(dst, fn.replace("c15g", "c15w")))
+    ws = sweep_soils(seed)
+    open(os.path.join(dst, "soil_c15w.csv"), "w").write("\n".join([HDR] + soil_lines_csv(ws)) + "\n")
+    open(os.path.join(dst, "soil_c15w.txt"), "w").write(soil_file_txt(ws))
+    poly = open(os.path.join(dst, "poly_c15w.txt")).read().replace("end\n", "10004 T1  SOYSM1    09 09 0 soy_maize\nend\n")
+    open(os.path.join(dst, "poly_c15w.txt"), "w").write(poly)
     info["file_soils"] = [{"sid": sid, "gw": gwl, "stones_top": hz[0][4], "kinds": ["table" if h[5] is None else "explicit" for h in hz]} for sid, gwl, hz in fs]
     return info
+
+
+# ---------------------------------------------------------------- configuration sweep of the parameter routes
+SWEEP_FACTORS = [
+    ("ptf", [0, 1, 2, 3, 4]),
+    ("vals", ["explicit", "none", "porevolume"]),          # what the soil file gives: FC/WP/PS, nothing, PS only
+    ("reader", ["csv", "txt"]),
+    ("stones", [0, 1]),
+    ("gw", ["polygon-constant", "polygon-sinus", "soilfile", "timeseries"]),
+    ("phase", [0, 80, 200]),                               # GroundWaterPhase (days)
+    ("autoirr", [0, 1]),
+]
+
+
+def sweep_valid(c):
+    # a PTF route takes the pore volume from the soil file: without it FC <= PS cannot hold (input condition, not a line of the sweep)
+    return not (c["ptf"] > 0 and c["vals"] == "none")
+
+
+def sweep_configs(seed, extra=0):
+    """pairwise cover of SWEEP_FACTORS (greedy over random candidates), + `extra` random valid configurations"""
+    rnd = random.Random(seed * 101 + 7)
+    names = [n for n, _ in SWEEP_FACTORS]
+    need = set()
+    for i in range(len(names)):
+        for j in range(i + 1, len(names)):
+            for a in SWEEP_FACTORS[i][1]:
+                for b in SWEEP_FACTORS[j][1]:
+                    if sweep_valid({"ptf": 1, "vals": "explicit", names[i]: a, names[j]: b} if {names[i], names[j]} == {"ptf", "vals"} else {"ptf": 0, "vals": "none"}):
+                        need.add((names[i], a, names[j], b))
+    pairs = lambda c: {(names[i], c[names[i]], names[j], c[names[j]]) for i in range(len(names)) for j in range(i + 1, len(names))}
+    out = []
+    while need:
+        best, gain = None, -1
+        for _ in range(60):
+            c = {n: rnd.choice(l) for n, l in SWEEP_FACTORS}
+            if not sweep_valid(c):
+                continue
+            g = len(pairs(c) & need)
+            if g > gain:
+                best, gain = c, g
+        if gain <= 0:
+            continue
+        out.append(best); need -= pairs(best)
+    while extra > 0:
+        c = {n: rnd.choice(l) for n, l in SWEEP_FACTORS}
+        if sweep_valid(c):
+            out.append(c); extra -= 1
+    return out
+
+
+def sweep_soils(seed):
+    """one soil per (values given, stones) in both file formats; valid sand/silt/clay for the PTF routes"""
+    rnd = random.Random(seed * 13 + 1)
+    E = None
+    out = []
+    for code, vals in (("E", "explicit"), ("N", "none"), ("P", "porevolume")):
+        for stn in (0, 1):
+            st1, st2 = (rnd.choice([1, 2, 10, 30]), rnd.choice([0, 5])) if stn else (0, 0)
+            f = {"explicit": ((31, 16, 45), (29, 19, 47)), "none": ((E, E, E), (E, E, E)), "porevolume": ((E, E, 46), (E, E, 48))}[vals]
+            out.append(("X%s%d" % (code, stn), rnd.choice([12, 7, 16]),
+                        [(rnd.choice([1.14, 1.60]), "ULS", 3, 2, st1) + f[0] + (26, 63, 11), (0.40, rnd.choice(["SL4", "LT2"]), 20, 3, st2) + f[1] + (45, 35, 20)]))
+    return out
+
+
+def sweep_lines(seed, thorough):
+    """batch lines of project c15w: every configuration of the pairwise cover, short runs"""
+    lines, cfgs = [], sweep_configs(seed, 30 if thorough else 0)
+    rnd = random.Random(seed * 7 + 2)
+    base = "WeatherFolder=historical fcode=109_120 Altitude=73 Latitude=52.6732 poligonID=29872"
+    for i, c in enumerate(cfgs):
+        sid = "X%s%d" % ({"explicit": "E", "none": "N", "porevolume": "P"}[c["vals"]], c["stones"])
+        gwfrom = {"polygon-constant": 0, "polygon-sinus": 0, "soilfile": 1, "timeseries": 2}[c["gw"]]
+        plot = 10004 if c["gw"] == "polygon-constant" else rnd.choice([10001, 10002, 10003])
+        s = ("project=c15w %s soilId=%s plotNr=%d EndDate=1231%d resultfolder=R/c15w_%d PTF=%d SoilFileExtension=%s GroundWaterFrom=%d "
+             "GroundWaterPhase=%d AutoIrrigation=%d" % (base, sid, plot, 1982 if thorough else 1981, i, c["ptf"], c["reader"], gwfrom, c["phase"], c["autoirr"]))
+        if c["gw"] == "timeseries":
+            s += " gwId=" + rnd.choice(["G1", "G2", "G3", "G4"])
+        lines.append((s, "sweep:" + ",".join("%s=%s" % kv for kv in sorted(c.items()))))
+    return lines, cfgs
 
 
 def batch_lines(thorough, seed, end_year_quick=1982, end_year_thorough=1990):
@@ -271,4 +363,6 @@ def batch_lines(thorough, seed, end_year_quick=1982, end_year_thorough=1990):
             add("c15s" if (i % 2 == 0) != flip else "c15t", sid, 10001, None, 0, sid, 1981)
         add("c15s", "S1T", 10001, None, 0, "S1T-csv", 1981)                 # 1 % stones through the csv reader
         add("c15t" if flip else "c15s", "S2E", 10001, None, 0, "S2E", 1981)
+    sw, cfgs = sweep_lines(seed, thorough)
+    lines += sw
     return lines
